@@ -9,7 +9,7 @@
   `Pp` settings; the only parameters are the float printer `c.ryu` (third-party `ryu`) with its
   recorded contract `RyuLit`/`RyuOk`, and the tables.
 -/
-import JaqVerif.Lemmas.C07Top
+import JaqVerif.Lemmas.C07Congr
 
 namespace Jaq.C07
 
@@ -159,6 +159,18 @@ theorem tojson_fromjson (c : Cfg) (hc : RyuLit c) (v : Val) (hg : GoodVal v) (hk
   have := parse_print_val c hc Pp.compact (by intro s h; cases h) v hg hk [] [] isGap_nil isGap_nil
   simpa using this
 
+/-- "Same printed form": the value that is read back prints byte for byte like the original (so
+the difference `Float f` / `Dec (ryu f)` and `BigInt`/`Int` representation is invisible to printing),
+for every `Pp` without key sorting and every value. -/
+theorem print_canon_same_partial (c : Cfg) (pp : Pp) (h : pp.sortKeys = false) (v : Val) :
+    write c pp (canon c pp v) = write c pp v := writeVal_canon c pp h v.size v (Nat.le_refl _) 0
+
+/- Full statement also for `pp.sortKeys = true`:  `write c pp (canon c pp v) = write c pp v`.
+   Missing: that `canon` preserves the key order `Val.cmp` (a finite float and the literal `ryu f`
+   compare alike — follows from `RyuOk.value` plus the theory of `Val.cmp`, property C08).  The real
+   code is checked for it on every run by the oracle (`write pp (parse (write pp v)) = write pp v`
+   for all 14 `Pp` settings including sorting). -/
+
 /-- the hypotheses are satisfiable: a printer that emits literals, the command line's indentations,
 a value with a literal, and an object with two different keys -/
 example : RyuLit { ryu := fun _ => [0x31, 0x2e, 0x35] } := by
@@ -182,5 +194,61 @@ theorem whitespace_is_gap (w : Bytes) (h : ∀ b ∈ w, isWs b = true) : IsGap w
 /-- … and so is a `#` comment up to and including the end of its line (XJON). -/
 theorem comment_is_gap (body : Bytes) (h : ∀ b ∈ body, b ≠ 0x0a) : IsGap (0x23 :: (body ++ [0x0a])) :=
   isGap_comment body h
+
+/-! ### RFC 8259 texts mean what the RFC says
+
+`Spelling j s` (C07/Rfc.lean): `s` is an RFC 8259 text of the abstract JSON value `j` — `ws` in any
+amount wherever the grammar allows it; strings as any sequence of `Piece`s: unescaped bytes
+(≥ 0x20, not `"` or `\`; multi-byte UTF-8 characters are runs of such bytes), the eight
+two-character escapes, `\uXXXX` with hexadecimal digits in either case for code points outside
+the surrogate range, surrogate pairs `\uD8xx\uDCxx` for code points from U+10000; integer
+literals (incl. `-0`); non-integer literals; arrays; objects whose member names may repeat.
+`embed j`: integers exact at any size, non-integer literals kept as their text, strings as their
+UTF-8 bytes, arrays elementwise, objects by inserting the members in order (a repeated name keeps
+its first position and takes the last value — what Python's `dict`/`json` does too). -/
+
+/-- the jaq value that an RFC 8259 reader assigns to the abstract JSON value `j` -/
+def embed (j : JVal) : Val := resolve (embedRaw j)
+
+/- Full statement:  `Spelling j s → parse_single s = embed j`  for the RFC grammar.
+   Proved below in full for white space, strings (all escape forms, surrogate pairs), integer
+   literals of any size, arrays, objects, duplicate names, nesting of any depth.
+   PARTIAL in one respect: non-integer number literals are characterised through the reader's own
+   number lexer (`NonIntLit`: consumed entirely, ends in a digit, has `.` or `e`/`E`) instead of an
+   independent rendering of the RFC production `[-] int frac? exp?`; that every RFC literal is a
+   `NonIntLit` is shown on the examples below and checked by the exhaustive correspondence over the
+   number alphabet and by Python's `json` on generated texts. -/
+theorem parse_rfc_spelling_partial (j : JVal) (s w1 w2 : Bytes) (h : Spelling j s) (h1 : Ws w1) (h2 : Ws w2) :
+    parseSingle (w1 ++ (s ++ w2)) = some (embed j) :=
+  parseSingle_spells _ _ w1 w2 (spelling_spells j s h) (ws_gap h1) (ws_gap h2)
+
+/-- the string part on its own: a body made of any mix of pieces is read as the UTF-8 bytes the
+pieces denote -/
+theorem parse_rfc_string (u p : Bytes) (h : Body u p) :
+    parseSingle (0x22 :: (p ++ [0x22])) = some (.tstr u) := by
+  have := parse_rfc_spelling_partial (.str u) _ [] [] (by simp only [Spelling]; exact ⟨p, h, rfl⟩)
+    (by intro b hb; cases hb) (by intro b hb; cases hb)
+  simpa [embed, embedRaw, resolve] using this
+
+-- `"\u00E9"`, `"\u00e9"` and the two unescaped bytes C3 A9 all denote é (UTF-8 C3 A9)
+example : Body [0xc3, 0xa9] [0x5c, 0x75, 0x30, 0x30, 0x45, 0x39] := by
+  have := Body.cons (Piece.uni 0 0 14 9 0x30 0x30 0x45 0x39 (by unfold HexSp; decide) (by unfold HexSp; decide) (by unfold HexSp; decide) (by unfold HexSp; decide) (by decide)) Body.nil
+  simpa [Utf8.encode] using this
+example : Body [0xc3, 0xa9] [0x5c, 0x75, 0x30, 0x30, 0x65, 0x39] := by
+  have := Body.cons (Piece.uni 0 0 14 9 0x30 0x30 0x65 0x39 (by unfold HexSp; decide) (by unfold HexSp; decide) (by unfold HexSp; decide) (by unfold HexSp; decide) (by decide)) Body.nil
+  simpa [Utf8.encode] using this
+example : Body [0xc3, 0xa9] [0xc3, 0xa9] :=
+  Body.cons (Piece.lit 0xc3 (by decide) (by decide) (by decide)) (Body.cons (Piece.lit 0xa9 (by decide) (by decide) (by decide)) Body.nil)
+-- `"\ud83d\uDE00"` denotes U+1F600 (UTF-8 F0 9F 98 80)
+example : Body [0xf0, 0x9f, 0x98, 0x80] [0x5c, 0x75, 0x64, 0x38, 0x33, 0x64, 0x5c, 0x75, 0x44, 0x45, 0x30, 0x30] := by
+  have := Body.cons (Piece.pair 13 8 3 13 13 14 0 0 0x64 0x38 0x33 0x64 0x44 0x45 0x30 0x30
+    (by unfold HexSp; decide) (by unfold HexSp; decide) (by unfold HexSp; decide) (by unfold HexSp; decide) (by unfold HexSp; decide) (by unfold HexSp; decide) (by unfold HexSp; decide) (by unfold HexSp; decide) (by decide) (by decide)) Body.nil
+  simpa [Utf8.encode] using this
+-- RFC number literals with a fraction or an exponent: -0.5, 1E+2, 0e0, 10.25e-3
+example : NonIntLit [0x2d, 0x30, 0x2e, 0x35] := ⟨(numLex NumSt.init [0x2d, 0x30, 0x2e, 0x35]).2.2, by decide, by decide, by decide⟩
+example : NonIntLit [0x31, 0x45, 0x2b, 0x32] := ⟨(numLex NumSt.init [0x31, 0x45, 0x2b, 0x32]).2.2, by decide, by decide, by decide⟩
+example : NonIntLit [0x30, 0x65, 0x30] := ⟨(numLex NumSt.init [0x30, 0x65, 0x30]).2.2, by decide, by decide, by decide⟩
+example : NonIntLit [0x31, 0x30, 0x2e, 0x32, 0x35, 0x65, 0x2d, 0x33] :=
+  ⟨(numLex NumSt.init [0x31, 0x30, 0x2e, 0x32, 0x35, 0x65, 0x2d, 0x33]).2.2, by decide, by decide, by decide⟩
 
 end Jaq.C07
